@@ -366,17 +366,19 @@ def check_rmw(ctx):
             p_none = ctx.sat(p.pc + [pd != 0], ob)[0] == z3.unsat
             key = arg_obj(p, fn, 2)
             if u_none:
-                if p_some and (len(rem) != 1 or ins):
-                    bad.append((p, 'f returned None for an existing key but the key is not removed')); continue
-                if p_none and (rem or ins):
+                if ins:
+                    bad.append((p, 'f returned None, yet a value is inserted')); continue
+                if not rem and ctx.sat(p.pc + [pd == 1], ob)[0] == z3.sat:
+                    bad.append((p, 'f returned None for a key that can exist, but the key is not removed')); continue
+                if p_none and rem:
                     bad.append((p, 'f returned None for an absent key, yet something is written')); continue
                 if rem and cid(rem[0].args['args'][2]) != cid(key):
                     bad.append((p, 'another key is removed')); continue
             elif u_some:
                 if rem:
                     bad.append((p, 'f returned a value but the key is removed')); continue
-                if p_none and len(ins) != 1:
-                    bad.append((p, 'f returned a value for an absent key but nothing is inserted')); continue
+                if not ins and ctx.sat(p.pc + [pd == 0], ob)[0] == z3.sat:
+                    bad.append((p, 'f returned a value for a key that can be absent, but nothing is inserted')); continue
                 if ins:
                     a = ins[0].args['args']
                     if cid(a[2]) != cid(key):
@@ -436,32 +438,57 @@ def check_rmw(ctx):
 # ------------------------------------------------------------------ commit
 def check_commit(ctx):
     pat = r'^tx::write_tx::<impl>::commit$'
-    ob = ctx.ob('commit/final', 'BaseTransaction::commit: one batch with the transaction\'s durability; per keyspace the newest entry of every key (first of each run of equal keys), unchanged; '
-                'no writes -> no batch', [BASE + 'commit'])
-    N = 3
+    ob = ctx.ob('commit/final', 'BaseTransaction::commit: one batch with the transaction\'s durability; per keyspace the newest entry of every key (first of each run of equal keys), unchanged, '
+                'whatever the other keyspaces of the transaction contain; no writes -> no batch', [BASE + 'commit'])
+    SHAPE = (('ks', 2), ('other', 2)) if ctx.tier == 'quick' else (('ks', 3), ('other', 2))
     fn = ctx.prog.find(pat)
     env = {}
+    ENT = []          # (entry name, keyspace name, index within keyspace)
+    for kn, n in SHAPE:
+        for i in range(n):
+            ENT.append((f'{kn}.e{i}', kn, i))
+
+    def eqv(a, b):
+        a, b = sorted((a, b))
+        return z3.Bool(f'same_key[{a}|{b}]')
+
+    def axioms():
+        names = [e for e, _k, _i in ENT]
+        ax = []
+        for x in names:
+            for y in names:
+                for z_ in names:
+                    if len({x, y, z_}) == 3:
+                        ax.append(z3.Implies(z3.And(eqv(x, y), eqv(y, z_)), eqv(x, z_)))
+        # memtable iteration is sorted by key: inside one keyspace equal keys are adjacent
+        for kn, n in SHAPE:
+            for i in range(n):
+                for j in range(i + 2, n):
+                    for m_ in range(i + 1, j):
+                        ax.append(z3.Implies(eqv(f'{kn}.e{i}', f'{kn}.e{j}'), z3.And(eqv(f'{kn}.e{i}', f'{kn}.e{m_}'), eqv(f'{kn}.e{m_}', f'{kn}.e{j}'))))
+        return ax
 
     def setup(ex, st, fr):
         names = ex.src.struct_fields('tx::write_tx::BaseTransaction')
         tx = Obj('tx::write_tx::BaseTransaction', 'tx', 'struct')
-        ks, tree = mk_ks(ex, 'ks')
         m = Obj('HashMap<Keyspace, Arc<Memtable>>', 'tx.memtables', 'opaque'); m.data['known_empty'] = True; m.data['entries'] = {}
-        mt = Obj('lsm_tree::Memtable', 'mt_ks', 'opaque')
-        items = []
-        for i in range(N):
-            iv = Obj('lsm_tree::InternalValue', f'e{i}', 'struct')
-            items.append(iv)
-        mt.data['iter_items'] = items
-        a = Obj('Arc<Memtable>', 'mt_ks.arc', 'struct'); a.fields['ptr'] = Cell(mt)
         empty = z3.Bool('tx.nothing_written')
-        m.data['entries'][canon_id(ks)] = [z3.Not(empty), Cell(a), ks]
-        m.data['iter_pairs'] = [(ks, a)]
+        pairs = []; kss = {}
+        for kn, n in SHAPE:
+            ks, _tree = mk_ks(ex, kn)
+            mt = Obj('lsm_tree::Memtable', 'mt_' + kn, 'opaque')
+            mt.data['iter_items'] = [Obj('lsm_tree::InternalValue', f'{kn}.e{i}', 'struct') for i in range(n)]
+            a = Obj('Arc<Memtable>', f'mt_{kn}.arc', 'struct'); a.fields['ptr'] = Cell(mt)
+            m.data['entries'][canon_id(ks)] = [z3.Not(empty), Cell(a), ks]
+            pairs.append((ks, a)); kss[kn] = ks
+        m.data['iter_pairs'] = pairs
         tx.fields[names.index('memtables')] = Cell(m)
         dur = EnumV('Option<PersistMode>', z3.BitVec('tx.durability.disc', 64), 'tx.durability')
         st.pc.append(z3.ULE(dur.disc, bv(1)))
+        for c in axioms():
+            st.pc.append(c)
         tx.fields[names.index('durability')] = Cell(dur)
-        env.update({'tx': tx, 'ks': ks, 'items': items, 'dur': dur, 'empty': empty, 'names': names})
+        env.update({'tx': tx, 'kss': kss, 'dur': dur, 'empty': empty, 'names': names})
         fr.locals[fr.fn.args[0]] = Cell(tx)
 
     def ov_mt_iter(ex, st, call):
@@ -482,19 +509,31 @@ def check_commit(ctx):
             return mk_iter(ex, st, call.dst_ty, mk_seq('', cells, 'memtables'), False)
         return NotImplemented
 
+    def entry_of(o):
+        """name of the memtable entry an (owned or borrowed, possibly cloned) key object belongs to"""
+        n = getattr(deref(o), 'name', '')
+        for e, _k, _i in ENT:
+            if n.startswith(e + '.'):
+                return e
+        return None
+
     def ov_key_eq(ex, st, call):
-        a, b = deref(call.args[0]), deref(call.args[1])
-        na = getattr(a, 'name', '?'); nb = getattr(b, 'name', '?')
-        return z3.Bool(f'same_key[{min(na, nb)}|{max(na, nb)}]')
+        a, b = entry_of(call.args[0]), entry_of(call.args[1])
+        if a is None or b is None:
+            return NotImplemented
+        if a == b:
+            return z3.BoolVal(True)
+        return eqv(a, b)
 
     def ov_batch_commit(ex, st, call):
         b = deref(call.args[0])
         st.emit(Ev('BATCH_COMMIT', args={'batch': b}, site=call.site))
         f = ex.contract.fault(ex, st, 'BATCH_COMMIT')
         return ex.mk_result(st, call.dst_ty, f, ok=ex.unit())
-    ex = ctx.executor(loop_bound=N + 2, timeout_s=120, overrides=[(r'Memtable::iter$', ov_mt_iter), (r'HashMap<.*> as IntoIterator>::into_iter$', ov_map_into_iter),
-                                                                  (r'<(lsm_tree::)?Slice as PartialEq(<.*>)?>::(eq)$|<&(lsm_tree::)?Slice as PartialEq(<.*>)?>::eq$', ov_key_eq),
-                                                                  (r'OwnedWriteBatch::commit$|batch::<impl>::commit$|WriteBatch::commit$', ov_batch_commit)])
+    ex = ctx.executor(loop_bound=max(n for _k, n in SHAPE) + len(SHAPE) + 2, timeout_s=180,
+                      overrides=[(r'Memtable::iter$', ov_mt_iter), (r'HashMap<.*> as IntoIterator>::into_iter$', ov_map_into_iter),
+                                 (r'<&?(lsm_tree::)?Slice as PartialEq(<.*>)?>::(eq|ne)$', ov_key_eq),
+                                 (r'OwnedWriteBatch::commit$|batch::<impl>::commit$|WriteBatch::commit$', ov_batch_commit)])
     paths = ex.run(fn, setup=setup)
     ctx.functions_encoded[fn.key] = ctx.prog.hashes.get(fn.name, '')
     ctx.paths_total += len(paths); ctx.solver_s += ex.stats['solver_s']; ctx.queries += ex.stats['solver_calls']
@@ -509,7 +548,6 @@ def check_commit(ctx):
             continue
         ob.reach += 1
         bc = [e for e in p.events if e.kind == 'BATCH_COMMIT']
-        eff = [e for e in p.events if e.kind in EFFECTS]
         if ctx.sat(p.pc + [z3.Not(env['empty'])], ob)[0] != z3.sat:
             if bc:
                 bad.append((p, 'a batch is committed although the transaction wrote nothing'))
@@ -520,54 +558,49 @@ def check_commit(ctx):
         data = seq_items(deref(b.fields[bn.index('data')].val)) if isinstance(b, Obj) and bn.index('data') in b.fields else None
         if data is None:
             bad.append((p, 'batch contents unknown')); continue
-        got = []
+        got = {}
+        problem = None
+        order = []
         for c in data:
             it = deref(c.val)
-            kk = deref(it.fields[itn.index('key')].val) if itn.index('key') in it.fields else None
-            got.append((it, getattr(kk, 'name', '?')))
-        # which entries must be there: i = 0, or key_i != key_{i-1}
-        want = []
-        for i in range(N):
+            e = entry_of(it.fields[itn.index('key')].val) if itn.index('key') in it.fields else None
+            if e is None:
+                problem = 'a batch item does not carry the key of a memtable entry'; break
+            if e in got:
+                problem = f'entry {e} is submitted twice'; break
+            got[e] = it; order.append(e)
+        if problem:
+            bad.append((p, problem)); continue
+        for e, kn, i in ENT:
+            present = e in got
             if i == 0:
-                want.append(i); continue
-            same = z3.Bool(f'same_key[{min(f"e{i}.key.user_key", f"e{i-1}.key.user_key")}|{max(f"e{i}.key.user_key", f"e{i-1}.key.user_key")}]')
-            # find the comparison variable actually used on the path (names depend on field paths)
-            cands = [c for c in p.pc if 'same_key' in str(c)]
-            want.append(('?', i))
-        names_got = [n for _it, n in got]
-        # decide from the path condition: entry i is dropped iff the path assumed key_i == key of the last KEPT... the real code compares with prev_key = last pushed key
-        kept = [0]
-        ok = True
-        for i in range(1, N):
-            prev = kept[-1]
-            v = None
-            for c in p.pc:
-                s = str(c)
-                if 'same_key' in s and f'e{i}.' in s and f'e{prev}.' in s:
-                    v = not s.startswith('Not(')
-            if v is None:
-                ok = False; break
-            if not v:
-                kept.append(i)
-        if not ok:
-            bad.append((p, 'an entry is kept or dropped without comparing its key with the previously kept key')); continue
-        exp_names = [f'e{i}.key.user_key' for i in kept]
-        if [n.rstrip("'") for n in names_got] != exp_names:
-            bad.append((p, f'the batch holds entries {names_got}, expected the newest entry per key {exp_names}')); continue
-        for (it, _n), i in zip(got, kept):
+                if not present:
+                    problem = f'the newest entry of the first key of keyspace {kn} ({e}) is missing from the batch: a write of the transaction is lost at commit'
+                    break
+                continue
+            prev = f'{kn}.e{i - 1}'
+            if present and ctx.sat(p.pc + [eqv(prev, e)], ob)[0] != z3.unsat:
+                problem = f'{e} is submitted although it can be an older entry of the same key as {prev}: the commit does not apply exactly the final write per key'; break
+            if not present and ctx.sat(p.pc + [z3.Not(eqv(prev, e))], ob)[0] != z3.unsat:
+                problem = f'{e} is dropped although its key can differ from the previous entry of its keyspace ({prev}): a write of the transaction is lost at commit'; break
+        if problem:
+            bad.append((p, problem)); continue
+        for e, it in got.items():
+            kn = [k for n_, k, _i in ENT if n_ == e][0]
             ksf = it.fields.get(itn.index('keyspace'))
-            if ksf is None or canon_id(ksf.val) != canon_id(env['ks']):
-                bad.append((p, f'entry e{i} is submitted for another keyspace')); break
+            if ksf is None or canon_id(ksf.val) != canon_id(env['kss'][kn]):
+                problem = f'entry {e} is submitted for another keyspace'; break
             vv = deref(it.fields[itn.index('value')].val) if itn.index('value') in it.fields else None
-            if getattr(vv, 'name', '').rstrip("'") != f'e{i}.value':
-                bad.append((p, f'entry e{i} is submitted with another value ({getattr(vv, "name", vv)})')); break
+            if entry_of(vv) != e or '.value' not in getattr(vv, 'name', ''):
+                problem = f'entry {e} is submitted with another value ({getattr(vv, "name", vv)})'; break
             vt = it.fields[itn.index('value_type')].val if itn.index('value_type') in it.fields else None
-            if 'e%d.key.value_type' % i not in str(getattr(vt, 'name', vt)) and 'e%d' % i not in str(getattr(vt, 'name', vt)):
-                bad.append((p, f'entry e{i} is submitted with another kind ({getattr(vt, "name", vt)})')); break
-        else:
-            d = b.fields[bn.index('durability')].val if bn.index('durability') in b.fields else None
-            if not isinstance(d, EnumV) or str(d.disc) != str(env['dur'].disc):
-                bad.append((p, 'the batch does not carry the transaction\'s durability'))
+            if not str(getattr(vt, 'name', vt)).startswith(e + '.'):
+                problem = f'entry {e} is submitted with another kind ({getattr(vt, "name", vt)})'; break
+        if problem:
+            bad.append((p, problem)); continue
+        d = b.fields[bn.index('durability')].val if bn.index('durability') in b.fields else None
+        if not isinstance(d, EnumV) or str(d.disc) != str(env['dur'].disc):
+            bad.append((p, 'the batch does not carry the transaction\'s durability'))
     finish(ctx, ob, bad, 'tx.commit/not-final-write-per-key')
 
 
@@ -630,16 +663,18 @@ def tx_programs():
                                  ('insert', 'a', k1, '39'), ('scan', 'a')])
     P['remove-snapshot-key-then-scan'] = ([('insert', 'a', k1, '31'), ('insert', 'a', k2, '32'), ('insert', 'a', k3, '33')],
                                           [('remove', 'a', k2), ('get', 'a', k2), ('contains', 'a', k2), ('size_of', 'a', k2), ('scan', 'a'), ('rscan', 'a'), ('first', 'a'), ('last', 'a'), ('remove', 'a', k3), ('last', 'a'),
-                                           ('remove', 'a', k1), ('first', 'a'), ('scan', 'a'), ('len', 'a')])
+                                           ('remove', 'a', k1), ('first', 'a'), ('scan', 'a'), ('pscan', 'a'), ('range', 'a'), ('len', 'a')])
     P['rmw'] = ([('insert', 'a', k1, '31')],
                 [('take', 'a', k1), ('get', 'a', k1), ('take', 'a', k1), ('fetch_update', 'a', k1, '41'), ('get', 'a', k1), ('fetch_update', 'a', k1, '42'), ('update_fetch', 'a', k1, '43'), ('get', 'a', k1),
-                 ('update_fetch', 'a', k2, '44'), ('scan', 'a'), ('take', 'a', k2), ('scan', 'a')])
+                 ('update_fetch', 'a', k2, '44'), ('scan', 'a'), ('take', 'a', k2), ('scan', 'a'), ('update_fetch_none', 'a', k1), ('get', 'a', k1), ('scan', 'a'), ('update_fetch_none', 'a', k3)])
     P['two-keyspaces'] = ([('insert', 'a', k1, '31'), ('insert', 'b', k1, '41')],
                           [('insert', 'a', k2, '32'), ('get', 'b', k2), ('scan', 'b'), ('remove', 'b', k1), ('scan', 'a'), ('scan', 'b'), ('insert', 'b', k2, '42'), ('get', 'a', k2), ('get', 'b', k2)])
+    P['same-key-two-keyspaces'] = ([('insert', 'a', k1, '31'), ('insert', 'b', k1, '41')],
+                                   [('insert', 'a', k2, '32'), ('insert', 'b', k2, '42'), ('remove', 'a', k1), ('insert', 'b', k1, '4141'), ('insert', 'a', k3, '33'), ('insert', 'b', k3, '43'), ('scan', 'a'), ('scan', 'b')])
     P['weak-and-empty'] = ([('insert', 'a', k1, '31')],
                            [('remove_weak', 'a', k1), ('get', 'a', k1), ('scan', 'a'), ('insert', 'a', k2, '00'), ('get', 'a', k2), ('size_of', 'a', k2), ('scan', 'a')])
     P['flushed-snapshot'] = ([('insert', 'a', k1, '31'), ('insert', 'a', k2, '32'), ('flush', 'a')],
-                             [('insert', 'a', k1, '3939'), ('remove', 'a', k2), ('scan', 'a'), ('get', 'a', k1), ('get', 'a', k2), ('insert', 'a', k2, '38'), ('rscan', 'a')])
+                             [('insert', 'a', k1, '3939'), ('remove', 'a', k2), ('scan', 'a'), ('pscan', 'a'), ('range', 'a'), ('get', 'a', k1), ('get', 'a', k2), ('insert', 'a', k2, '38'), ('rscan', 'a')])
     return P
 
 
@@ -672,6 +707,10 @@ def run_tx_program(ctx, name, kind, pre, ops, ending):
             L.append(f'tx t size_of {op[1]} {op[2]}'); v = local[op[1]].get(op[2]); expect.append((len(L) - 1, 'none' if v is None else f'some:{len(v) // 2}', op))
         elif o == 'scan':
             L.append(f'tx t iter {op[1]}'); expect.append((len(L) - 1, fmt_list(local[op[1]]), op))
+        elif o == 'pscan':
+            L.append(f'tx t prefix {op[1]}'); expect.append((len(L) - 1, fmt_list(local[op[1]]), op))
+        elif o == 'range':
+            L.append(f'tx t range {op[1]}'); expect.append((len(L) - 1, fmt_list(local[op[1]]), op))
         elif o == 'rscan':
             L.append(f'tx t iter_rev {op[1]}'); expect.append((len(L) - 1, fmt_list(local[op[1]], True), op))
         elif o in ('first', 'last'):
@@ -684,6 +723,8 @@ def run_tx_program(ctx, name, kind, pre, ops, ending):
             L.append(f'tx t take {op[1]} {op[2]}'); v = local[op[1]].pop(op[2], None); expect.append((len(L) - 1, 'none' if v is None else f'some:{v}', op))
         elif o == 'fetch_update':
             L.append(f'tx t fetch_update {op[1]} {op[2]} {op[3]}'); v = local[op[1]].get(op[2]); local[op[1]][op[2]] = op[3]; expect.append((len(L) - 1, 'none' if v is None else f'some:{v}', op))
+        elif o == 'update_fetch_none':
+            L.append(f'tx t update_fetch_none {op[1]} {op[2]}'); local[op[1]].pop(op[2], None); expect.append((len(L) - 1, 'none', op))
         elif o == 'update_fetch':
             L.append(f'tx t update_fetch {op[1]} {op[2]} {op[3]}'); local[op[1]][op[2]] = op[3]; expect.append((len(L) - 1, f'some:{op[3]}', op))
     # nothing visible outside before the ending
